@@ -768,6 +768,14 @@ pub fn property() -> Property {
       prop_sub("server_eval", 4000, 100_000, eval_strat, eval_oracle),
       prop_sub("client_verify", 4000, 100_000, verify_strat, verify_oracle),
       prop_sub("wasm_group_shares", 6000, 200_000, wasm_strat, wasm_oracle),
+      crate::fuzzentry::fuzz_sub("fuzzbytes_decode", "decode", "C09", 20000, 400000),
+      crate::fuzzentry::artefact_sub("artefact_decode", "decode", "C09"),
+      crate::fuzzentry::fuzz_sub("fuzzbytes_recover", "recover", "C09", 10000, 200000),
+      crate::fuzzentry::artefact_sub("artefact_recover", "recover", "C09"),
+      crate::fuzzentry::fuzz_sub("fuzzbytes_ppoprf", "ppoprf", "C09", 4000, 80000),
+      crate::fuzzentry::artefact_sub("artefact_ppoprf", "ppoprf", "C09"),
+      crate::fuzzentry::fuzz_sub("fuzzbytes_wasm", "wasm", "C09", 10000, 200000),
+      crate::fuzzentry::artefact_sub("artefact_wasm", "wasm", "C09"),
     ],
   }
 }
